@@ -3,7 +3,7 @@ wrapper's reply conversion; model-checked for sanity invariants), RedisKVGen.tla
 through redis.Redis and kv.New on 1-3 miniredis shards; spec/RedisWire.tla (canonical wire command of every
 wrapper method) -> comparison with the commands recorded by miniredis' pre-hook; breaker clause driven through
 the real per-address breaker."""
-import json, os, re
+import hashlib, json, os, re
 from concurrent.futures import ThreadPoolExecutor, as_completed
 from vlib import core
 
@@ -11,8 +11,10 @@ PKG = "./lib/store/kv"
 OVERLAY = {"lib/store/kv/zz_verif_c12_test.go": "c12/kv_test.go",
            "lib/store/kv/zz_verif_c12_wire_test.go": "c12/wire_test.go",
            "lib/store/kv/zz_verif_c12_shard_test.go": "c12/shard_test.go"}
-W = 3       # TLC workers per generation run (4 runs in parallel)
+W = 2       # TLC workers per model-checking / generation run (POOL runs in parallel; each is start-up dominated)
 SIMW = 3    # TLC simulation workers (num traces are generated per worker)
+POOL = 6    # TLC runs in parallel
+SHARDS = 8  # driver processes per replay
 META = dict(
     text="Model-based replay against a sequential TLA+ model of the Redis keyspace (strings, generic key commands, "
          "hashes, lists, sets, sorted sets, expiry) whose replies are the Redis replies after the wrapper's documented "
@@ -27,7 +29,15 @@ META = dict(
          "redis.Nil only on the absent read) and the pipeline's error must be the first failed command's error (go-redis' "
          "documented rule); (ii) a context dimension: every modelled method in its Ctx form with a context that is already "
          "cancelled / past its deadline must return the context's error, put nothing on the wire and leave the keyspace "
-         "unchanged (what go-redis does for the same call). A fault model (ShardedDel) covers "
+         "unchanged (what go-redis does for the same call); (iii) bitmaps on short strings: a string is a text or, once a bitmap command has "
+         "made bytes of it, a bit sequence - SetBit/GetBit/BitCount/BitPos/BitOpAnd/Or/Xor/Not with Redis' bit numbering, zero padding, "
+         "byte-range clamping and destination rules, interleaved with Get/GetSet/MGet/Incr/Set on the same keys (replies compared byte by byte); "
+         "(iv) HyperLogLogs as exact small sets (PFAdd's 'altered' answer, PFCount, PFMerge, type clashes, expiry); (v) three fixed Lua scripts "
+         "(GET / SET / INCRBY wrappers) through Eval, EvalSha and ScriptLoad with go-redis' reply conversion (int64, string, status text, "
+         "redis.Nil for a nil reply, WRONGTYPE / not-an-integer / NOSCRIPT classes) and the server's script cache as model state (checked at "
+         "the end with SCRIPT EXISTS); (vi) complete iterations of Scan / SScan / HScan (cursor 0 until cursor 0, the caller passing on the "
+         "cursor it was given, MATCH and COUNT dimensions; the reply is the set of everything returned). SetBit/GetBit/PFAdd/PFCount/Eval/SScan "
+         "also run through kv.Store on 1-3 shards. A fault model (ShardedDel) covers "
          "the multi-key delete with one of three shards down: every order of 1-3 keys spanning the shards; every named key "
          "whose shard answers must be removed and counted, an error reported iff a named key's shard is down, checked by "
          "count/error and by reading every key back after the shard has returned. A second TLA+ "
@@ -46,11 +56,21 @@ META = dict(
          "HGet HMGet HMSet HGetAll HKeys HVals HLen HDel HExists HIncrBy; LPush RPush LPop RPop LLen LIndex LRange LRem "
          "LTrim; SAdd SRem SCard SIsMember SMembers SUnion SInter SDiff and their Store forms; ZAdd ZAddFloat(int-valued) "
          "ZAdds ZScore ZIncrBy ZCard ZCount ZRank ZRevRank ZRem ZRange ZRevRange Z(Rev)RangeWithScores "
-         "Z(Rev)RangeByScoreWithScores(+AndLimit) ZRemRangeByScore ZRemRangeByRank ZUnionStore(2 keys, SUM). Only the "
-         "emitted wire command is checked (no reply conversion / effect claimed) for geo, HyperLogLog, BitCount, BitOp*, "
-         "BitPos, GetBit/SetBit, Scan/SScan/HScan, SPop, SRandMember, Eval/EvalSha/ScriptLoad, Ping; pipelines are covered "
-         "for the wire commands of one two-command pipeline and for the breaker clause only; blocking pops and ScriptLoad "
-         "bypass the breaker (reported in evidence) and are not driven; cluster type and TLS are not covered. TTL of an absent/persistent key: the model says -2/-1, the "
+         "Z(Rev)RangeByScoreWithScores(+AndLimit) ZRemRangeByScore ZRemRangeByRank ZUnionStore(2 keys, SUM); SetBit GetBit BitCount BitPos BitOpAnd BitOpOr BitOpXor BitOpNot "
+         "(strings of up to 3 bytes); PFAdd PFCount PFMerge (up to 6 elements: miniredis' estimate is exact there, a wrong estimate would "
+         "show as a disagreement); Eval EvalSha ScriptLoad for three fixed one-command scripts; Scan SScan HScan as complete iterations. "
+         "Named deviations of miniredis 2.23.1 from Redis met on the way are definitions of spec/RedisKV.tla (the model follows Redis, the "
+         "affected command/state combinations are not offered to the replay): MiniredisKeepsEmptyDestination, "
+         "MiniredisBitopKeepsDestinationTTL, MiniredisHllIsATypeOfItsOwn (string commands on a HyperLogLog key), "
+         "MiniredisPfaddReportsKnownElementsAfterCount, MiniredisCachesOnlySuccessfulEval, RedisVersionsDifferOnInvertedNegativeRange, "
+         "MiniredisScanAndHScanAnswerInOneCall (SCAN/HSCAN always answer everything with cursor 0, so passing on a non-zero cursor is "
+         "exercised through SSCAN only; the wire tier checks the cursor/MATCH/COUNT placement of all three). The wrapper has no ZScan. Only the "
+         "emitted wire command is checked (no reply conversion / effect claimed) for geo, SPop, SRandMember (random replies), Ping; "
+         "scripts other than the three fixed ones and Lua's array/table conversions are not covered; pipelines queue only classic commands; "
+         "blocking pops and ScriptLoad "
+         "bypass the breaker (reported in evidence; blocking pops are not driven); cluster type and TLS are not covered. Outages of the breaker "
+         "stage are made by dropping connections at the server (listener kept) or by closing and reopening the listener, alternating per "
+         "history; a listener that cannot be reopened (port taken by another process) makes the history run again on a fresh server. TTL of an absent/persistent key: the model says -2/-1, the "
          "wrapper returns 0 (go-redis reports the sentinels as Duration(-2/-1) and the wrapper truncates to seconds); "
          "the statement's 'same result after the documented conversion' admits both, so both are accepted and the "
          "observation is counted in evidence (ttl.sentinel-as-0). During transparency runs the breaker's coin is forced "
@@ -58,13 +78,19 @@ META = dict(
     technique="TLA+ model of Redis (RedisKV) + wire-command table (RedisWire); TLC-generated histories replayed on redis.Redis and kv.Store over miniredis",
     design="4/C12")
 
-FINISH = dict(rule="histories = complete TLC enumeration (BFS over the history variable) per command family up to MaxLen "
+FINISH = dict(rule="histories = complete TLC enumeration (BFS over the history variable) per command family (incl. bitmap, HyperLogLog, script, scan) up to MaxLen "
                    "commands over the family's bounded argument domain, plus seeded TLC simulation of long mixed histories; "
                    "every reply of every history on every target (wrapper, 1/2/3-shard store) and the final keyspace are "
                    "compared with the model; wire tier: every argument tuple enumerated by TLC for every method row")
 
 BASE = dict(Keys='{"k1","k2"}', Mem='<<"a","b">>', R=40, MaxList=4, VS='{"a","1"}', SecS="{2}", NS="{2}",
-            IdxS="{-1,0,1}", ScoreS="{-1,0,2}", PageS="{0,1}", SizeS="{0,1,2}", MaxAdv=1, KVOnly=False, PipeLens="{2,3}")
+            IdxS="{-1,0,1}", ScoreS="{-1,0,2}", PageS="{0,1}", SizeS="{0,1,2}", MaxAdv=1, KVOnly=False, PipeLens="{2,3}",
+            BitOffS="{0,7,9}", ByteIdxS="{-1,0,1}", HE='{"x","y"}', CountS="{1,2}")
+
+# the three fixed Lua scripts of family "script" (their meaning is spec/RedisKV.tla!ScriptStep)
+SCRIPTS = dict(sget="return redis.call('GET', KEYS[1])",
+               sset="return redis.call('SET', KEYS[1], ARGV[1])",
+               sincr="return redis.call('INCRBY', KEYS[1], ARGV[1])")
 
 
 def consts(**kw):
@@ -72,19 +98,34 @@ def consts(**kw):
     K.update(kw)
     fams = K.pop("fams")
     K["Fams"] = "{%s}" % ",".join('"%s"' % f for f in fams.split(","))
+    # input facts that TLC cannot compute: the ASCII bytes of every text a string key can hold, the SHA-1 of the scripts
+    texts = sorted(set(re.findall(r'"([^"]*)"', K["VS"])) | {str(i) for i in range(-K["R"], K["R"] + 1)})
+    K["TextBytes"] = " @@ ".join('("%s" :> <<%s>>)' % (t, ",".join(str(b) for b in t.encode("ascii"))) for t in texts)
+    K["Scripts"] = "[%s]" % ", ".join('%s |-> [src |-> "%s", sha |-> "%s"]' % (n, src, hashlib.sha1(src.encode()).hexdigest())
+                                      for n, src in sorted(SCRIPTS.items()))
     return K
 
 
-def mc(ctx):
-    # one key, every family: all type clashes, expiry of every type; two keys for the multi-key set commands
-    for name, kw, bound in (
-            ("RedisKV-mc1", dict(fams="str,key,hash,list,set,zset,pipe", Keys='{"k1"}', VS='{"a","1"}', NS="{2}", IdxS="{-1,0,1}",
-                                 ScoreS="{0,1}", PageS="{0,1}", SizeS="{0,1}", MaxList=3, R=4, SecS="{1,2}", MaxAdv=1), "clock <= 3"),
-            ("RedisKV-mc2", dict(fams="str,key,set", Keys='{"k1","k2"}', VS='{"1"}', NS="{2}", R=4, SecS="{1}", MaxAdv=1), "clock <= 2")):
-        K = consts(**kw)
-        cfg = core.render_cfg(spec="Spec", constants=K, invariants=["TypeOK", "WrongTypeOnlyOnTypeClash"],
-                              properties=["TTLSemantics"], constraints=["Bound_"], view="core")
-        ctx.tlc("RedisKV", cfg, constants=K, defs=dict(Bound_=bound), name=name, timeout=900, workers=W, heap="4g")
+# model checking of the Redis model itself (sanity invariants), one entry per configuration:
+# one key, every classic family: all type clashes, expiry of every type; two keys for the multi-key set commands;
+# bitmaps and HyperLogLogs with strings and expiry on one key; bitmaps / HyperLogLogs / scans / sets on two keys;
+# scripts and the script cache with strings and expiry
+MC = (("RedisKV-mc1", dict(fams="str,key,hash,list,set,zset,pipe", Keys='{"k1"}', VS='{"a","1"}', NS="{2}", IdxS="{-1,0,1}",
+                           ScoreS="{0,1}", PageS="{0,1}", SizeS="{0,1}", MaxList=3, R=4, SecS="{1,2}", MaxAdv=1), "clock <= 3"),
+      ("RedisKV-mc2", dict(fams="str,key,set", Keys='{"k1","k2"}', VS='{"1"}', NS="{2}", R=4, SecS="{1}", MaxAdv=1), "clock <= 2"),
+      ("RedisKV-mc3", dict(fams="str,key,bit,hll", Keys='{"k1"}', VS='{"a","1"}', NS="{2}", R=4, SecS="{1}", MaxAdv=1,
+                           BitOffS="{1,7,9}", ByteIdxS="{0,-1}", HE='{"x","y"}'), "clock <= 2"),
+      ("RedisKV-mc4", dict(fams="bit,hll,scan,set", Keys='{"k1","k2"}', VS='{"1"}', MaxAdv=0, BitOffS="{7}", ByteIdxS="{0}",
+                           HE='{"x"}', CountS="{1}"), "clock <= 0"),
+      ("RedisKV-mc5", dict(fams="script,str,key", Keys='{"k1"}', VS='{"a","1"}', NS="{2}", R=4, SecS="{1}", MaxAdv=1), "clock <= 2"))
+
+
+def mc(ctx, name, kw, bound):
+    K = consts(**kw)
+    cfg = core.render_cfg(spec="Spec", constants=K,
+                          invariants=["TypeOK", "WrongTypeOnlyOnTypeClash", "SetBitSticks", "LoadedScriptIsCallable"],
+                          properties=["TTLSemantics"], constraints=["Bound_"], view="core")
+    ctx.tlc("RedisKV", cfg, constants=K, defs=dict(Bound_=bound), name=name, timeout=900, workers=W, heap="4g")
 
 
 def gen(ctx, name, maxlen, simulate=None, simw=1, ctxfrom=0, **kw):
@@ -98,12 +139,15 @@ def gen(ctx, name, maxlen, simulate=None, simw=1, ctxfrom=0, **kw):
 
 
 def run(ctx):
-    mc(ctx)
     binp = ctx.go_build(PKG, OVERLAY, name="c12drv")
     ctx.assumptions += ["miniredis 2.23.1 is the Redis environment", "breaker coin forced to never-reject in transparency runs (H2)"]
     one = '{"k1"}'
     mixkw = dict(fams="str,key,hash,list,set,zset,pipe", PipeLens="{2,3,4}", Keys='{"k1","k2","k3"}', Mem='<<"a","b","c">>', VS='{"a","1","-2"}',
                  SecS="{1,3}", NS="{-3,2}", IdxS="{-2,0,1}", ScoreS="{-1,0,2}", PageS="{0,1}", SizeS="{0,2}", MaxAdv=2)
+    # long mixed histories over the bitmap / HyperLogLog / script / scan families together with strings, key commands
+    # (expiry), sets and hashes
+    NEWMIX = dict(fams="str,key,bit,hll,script,scan,set,hash", Keys='{"k1","k2","k3"}', Mem='<<"a","b","c">>', VS='{"a","1","-2"}',
+                  SecS="{1,3}", NS="{-3,2}", MaxAdv=2, BitOffS="{0,7,9,15}", ByteIdxS="{-2,-1,0,1}", HE='{"x","y","z","u"}', CountS="{1,2}")
     if ctx.quick:
         plans = [("str2", 2, dict(fams="str,key")),
                  ("str3", 3, dict(fams="str,key", Keys=one, VS='{"1"}')),
@@ -119,10 +163,25 @@ def run(ctx):
                  # context dimension: one ordinary command, then any command in its Ctx form with a dead context
                  ("ctxA", 2, dict(fams="str,key,hash", ctxfrom=2, VS='{"1"}')),
                  ("ctxB", 2, dict(fams="list,set", ctxfrom=2, VS='{"a"}', IdxS="{0}")),
-                 ("ctxZ", 2, dict(fams="zset", Keys=one, ctxfrom=2, ScoreS="{0,2}", IdxS="{0}", SizeS="{0,1}", PageS="{0}"))]
+                 ("ctxZ", 2, dict(fams="zset", Keys=one, ctxfrom=2, ScoreS="{0,2}", IdxS="{0}", SizeS="{0,1}", PageS="{0}")),
+                 # bitmaps on short strings: with the string commands on two keys (texts turned into bytes and back, INCR /
+                 # GET of byte strings, BITOP over two sources, type clashes), three bitmap commands on one key
+                 ("bit2", 2, dict(fams="bit,str")),
+                 ("bit3", 3, dict(fams="bit", Keys=one, BitOffS="{0,9}", ByteIdxS="{0,-1}")),
+                 ("bitx2", 2, dict(fams="bit,set", BitOffS="{7}", ByteIdxS="{0}")),      # bitmap commands and keys of another type
+                 # HyperLogLogs as exact small sets, with key commands (expiry, Del) and strings (type clashes)
+                 ("hll2", 2, dict(fams="hll,key,str", VS='{"1"}')),
+                 ("hll3", 3, dict(fams="hll")),
+                 # the three fixed scripts through Eval / EvalSha / ScriptLoad: reply conversion, the script cache
+                 ("scr2", 2, dict(fams="script,str,list,bit", Keys=one, BitOffS="{7}", ByteIdxS="{0}")),
+                 ("scr3", 3, dict(fams="script", Keys=one, VS='{"1"}')),
+                 # complete iterations of Scan / SScan / HScan after set and hash commands
+                 ("scan2", 2, dict(fams="scan,set,hash", Keys=one, VS='{"1"}')),
+                 ("ctxN", 2, dict(fams="bit,hll,script,scan", Keys=one, ctxfrom=2, VS='{"1"}', BitOffS="{7}", ByteIdxS="{0}", CountS="{1}"))]
         qkw = dict(mixkw, Keys='{"k1","k2"}', IdxS="{-2,1}", ScoreS="{-1,2}", SizeS="{1}")
         sims = [("mix", 40, 12, qkw),
-                ("mixkv", 40, 12, dict(qkw, KVOnly=True))]
+                ("mixkv", 40, 12, dict(qkw, KVOnly=True)),
+                ("mixn", 40, 12, dict(NEWMIX, Keys='{"k1","k2"}'))]
     else:
         plans = [("str2", 2, dict(fams="str,key", VS='{"a","1","-2"}', SecS="{1,2}", NS="{-3,2}")),
                  ("str3", 3, dict(fams="str,key", Keys=one)),
@@ -140,35 +199,96 @@ def run(ctx):
                  ("pipe4", 4, dict(fams="pipe", Keys=one, PipeLens="{2,4}")),
                  ("ctxA", 2, dict(fams="str,key,hash", ctxfrom=2)),
                  ("ctxB", 2, dict(fams="list,set", ctxfrom=2)),
-                 ("ctxZ", 2, dict(fams="zset", ctxfrom=2, ScoreS="{0,2}", IdxS="{-1,0}", SizeS="{0,1}"))]
+                 ("ctxZ", 2, dict(fams="zset", ctxfrom=2, ScoreS="{0,2}", IdxS="{-1,0}", SizeS="{0,1}")),
+                 ("bit2", 2, dict(fams="bit,str,key", BitOffS="{0,7,9,15}", ByteIdxS="{-2,-1,0,1}", SecS="{1}")),
+                 ("bit3", 3, dict(fams="bit", Keys=one, BitOffS="{0,7,9}", ByteIdxS="{0,1,-1}")),
+                 ("bitkv3", 3, dict(fams="bit,str", VS='{"a"}', NS="{2}", BitOffS="{1,7,22}", KVOnly=True)),
+                 ("bitx2", 2, dict(fams="bit,set,list,hll", BitOffS="{7,9}", ByteIdxS="{0,-1}")),
+                 ("hll2", 2, dict(fams="hll,key,str,set", Keys='{"k1","k2","k3"}', HE='{"x","y","z"}')),
+                 ("hll3", 3, dict(fams="hll", HE='{"x","y","z"}')),
+                 ("hllkv4", 4, dict(fams="hll", Keys=one, HE='{"x","y","z","u"}', KVOnly=True)),
+                 ("scr2", 2, dict(fams="script,str,list,key,bit", VS='{"a","1","-2"}', NS="{-3,2}", BitOffS="{7}", ByteIdxS="{0}")),
+                 ("scr3", 3, dict(fams="script", Keys=one, VS='{"a","1"}', NS="{-3,2}")),
+                 ("scan2", 2, dict(fams="scan,set,hash,key", Mem='<<"a","b","c">>', CountS="{1,2,5}")),
+                 ("scan3", 3, dict(fams="scan,set", Keys=one, Mem='<<"a","b","c">>')),
+                 ("ctxN", 2, dict(fams="bit,hll,script,scan", ctxfrom=2))]
         sims = [("mix", 40, 150, dict(mixkw, IdxS="{-3,-1,0,1,2}", ScoreS="{-2,0,1,2}", MaxList=5)),
                 ("mixkv", 40, 150, dict(mixkw, IdxS="{-3,-1,0,1,2}", ScoreS="{-2,0,1,2}", MaxList=5, KVOnly=True)),
-                ("mix80", 80, 60, dict(mixkw)), ]
+                ("mix80", 80, 60, dict(mixkw)),
+                ("mixn", 40, 150, dict(NEWMIX, BitOffS="{0,7,9,15,22}", ByteIdxS="{-2,-1,0,1,2}", HE='{"x","y","z","u","v","w"}')),
+                ("mixnkv", 40, 150, dict(NEWMIX, KVOnly=True)),
+                ("mixn80", 80, 60, dict(NEWMIX))]
     ctx.exhaustive = True
-    # TLC generation in parallel (each run is start-up dominated), replay one after the other (16 shards each)
-    jobs = [(n, ml, num, kw) for n, ml, num, kw in sims] + [(n, ml, None, kw) for n, ml, kw in plans]
+    # TLC runs (model checking of the model itself, generation) in parallel - each is start-up dominated -, the replays
+    # one after the other in this thread (SHARDS processes each); the longest TLC runs first
+    jobs = [(n, ml, num, kw) for n, ml, num, kw in sims] + [(n, None, None, (kw, bound)) for n, kw, bound in MC] + \
+           [(n, ml, None, kw) for n, ml, kw in plans]
 
     def produce(job):
         name, maxlen, num, kw = job
         try:
+            if maxlen is None:
+                mc(ctx, name, *kw)
+                return name, None, None
             if num is None:
                 return name, gen(ctx, name, maxlen, **kw), None
             return name, gen(ctx, name, maxlen, simulate=num, simw=SIMW, **kw), None
         except Exception as e:      # re-raised in the main thread
             return name, None, e
 
-    with ThreadPoolExecutor(5) as ex:
+    first_err = None
+    with ThreadPoolExecutor(POOL) as ex:
         for fut in as_completed([ex.submit(produce, j) for j in jobs]):
             name, cases, err = fut.result()
             if err is not None:
-                raise err
+                first_err = first_err or err
+                continue
+            if cases is None:
+                continue
             path, _ = ctx.write_cases(name + ".ndjson", cases)
-            if name in ("str2", "zset2", "mix"):
+            if name in ("str2", "zset2", "mix", "bit2", "scr3", "mixn"):
                 ctx.samples += core.sample_of(cases[len(cases) // 3:], 1)[:1]
-            ctx.replay(PKG, OVERLAY, "^TestVerifC12$", path, label=name, shards=16, binp=binp)
-    wire_path, methods = wire(ctx, binp)
-    brk(ctx, binp, wire_path, methods)
-    shard_del(ctx, binp)
+            try:
+                ctx.replay(PKG, OVERLAY, "^TestVerifC12$", path, label=name, shards=SHARDS, binp=binp)
+            except core.Infra as e:
+                first_err = first_err or e
+    if first_err is not None:
+        if not ctx.disagreements:
+            raise first_err
+        ctx.notes["harness_problem_besides_disagreement"] = str(first_err)[:600]
+    # (a harness problem in a later stage must not turn disagreements that were already observed into exit 2)
+    try:
+        wire_path, methods = wire(ctx, binp)
+        brk(ctx, binp, wire_path, methods)
+        shard_del(ctx, binp)
+    except core.Infra as e:
+        if not ctx.disagreements:
+            raise
+        ctx.notes["harness_problem_after_disagreement"] = str(e)[:600]
+    if not ctx.disagreements:
+        vacuity(ctx)
+
+
+def vacuity(ctx):
+    """Coverage that the run must have had (evaluated only when no disagreement was found)."""
+    tot = {}
+    for k, v in ctx.counters.items():
+        name = k.split(".", 1)[1]
+        tot[name] = tot.get(name, 0) + v
+    need = ["redis." + op for op in ("setbit", "getbit", "bitcount", "bitpos", "bitopand", "bitopor", "bitopxor", "bitopnot", "pfadd",
+                                     "pfcount", "pfmerge", "eval", "evalsha", "scriptload", "scanall", "sscanall", "hscanall")]
+    need += ["%s.%s" % (t, op) for t in ("kv1", "kv2", "kv3") for op in ("setbit", "getbit", "pfadd", "pfcount", "eval", "sscanall")]
+    need += ["redis.eval!nil", "redis.eval!wrongtype", "redis.eval!notint", "redis.evalsha!noscript", "redis.evalsha!nil",
+             "redis.pfadd!wrongtype", "redis.setbit!wrongtype", "redis.bitopand!wrongtype", "redis.sscanall!wrongtype",
+             "redis.get.bytes", "redis.getset.bytes", "redis.eval.bytes", "redis.incrby!notint",
+             "redis.sscanall.multi-call", "kv3.sscanall.multi-call", "kv3.eval!nil",
+             "outage.dropped-connections"]
+    missing = [n for n in need if tot.get(n, 0) == 0]
+    if missing:
+        raise core.Infra("vacuous run: never exercised: %s" % missing)
+    ctx.notes["named_deviations"] = ["MiniredisKeepsEmptyDestination", "MiniredisBitopKeepsDestinationTTL", "MiniredisHllIsATypeOfItsOwn",
+                                     "MiniredisPfaddReportsKnownElementsAfterCount", "MiniredisCachesOnlySuccessfulEval",
+                                     "RedisVersionsDifferOnInvertedNegativeRange", "MiniredisScanAndHScanAnswerInOneCall"]
 
 
 def wire(ctx, binp):
@@ -193,7 +313,7 @@ def shard_del(ctx, binp):
     r = ctx.tlc("ShardedDel", cfg, constants=K, name="sharddel", timeout=600, workers=2, heap="2g")
     path, _ = ctx.write_cases("sharddel.ndjson", r.printed)
     ctx.samples += core.sample_of(r.printed[len(r.printed) // 2:], 1)[:1]
-    ctx.replay(PKG, OVERLAY, "^TestVerifC12ShardDel$", path, label="sharddel", shards=16, binp=binp)
+    ctx.replay(PKG, OVERLAY, "^TestVerifC12ShardDel$", path, label="sharddel", shards=SHARDS, binp=binp)
 
 
 def guarded_entry_points():
@@ -234,7 +354,7 @@ def brk(ctx, binp, wire_path, known):
     cfg = core.render_cfg(spec="Spec", constants=K, invariants=["Emit"])
     r = ctx.tlc("RedisBrk", cfg, constants=K, name="brk", timeout=600, workers=2, heap="2g")
     path, n = ctx.write_cases("brk.ndjson", r.printed)
-    ctx.replay(PKG, OVERLAY, "^TestVerifC12Breaker$", path, label="brk", shards=16, binp=binp, env=dict(VERIF_WIRE=wire_path))
+    ctx.replay(PKG, OVERLAY, "^TestVerifC12Breaker$", path, label="brk", shards=SHARDS, binp=binp, env=dict(VERIF_WIRE=wire_path))
 
 
 def replay(ctx, rp):
